@@ -129,3 +129,94 @@ func GosymH_C13_async() {
 	_ = history
 	gosym_Reach("done")
 }
+
+// GosymH_C13_flush: the explicit background flush.  Two small files are written, Flush("", shortBlocks) starts
+// (packed or per-file) block writes that are held at the gate, then one more foreground operation (overwrite,
+// extend, shrink or grow-by-truncate) hits one of the files while the writes are in flight -- optionally
+// followed by a second Flush -- and the pending writes complete in any order, successfully or not.  Readers,
+// the final content and the saved manifest must show the foreground operations applied in order: a block
+// write that completes late must never bring back bytes that were overwritten, nor map bytes of a neighbour.
+func GosymH_C13_flush() {
+	maxBlockSize = 4
+	kc := &gosymGatedKeep{gosymKeep: gosymNewKeep(), hold: true}
+	fs, _ := (&Collection{}).FileSystem(nil, kc)
+	names := []string{"a", "b"}
+	var fh [2]File
+	var model [2][]byte
+	for i, nm := range names {
+		f, err := fs.OpenFile(nm, os.O_CREATE|os.O_RDWR, 0644)
+		gosym_Assert(err == nil, "open")
+		fh[i] = f
+		ln := 1 + gosym_Choice("init-len-"+nm, 2)
+		model[i] = gosym_Bytes("init-"+nm, ln, "any")
+		n, werr := f.Write(model[i])
+		gosym_Assert(werr == nil && n == ln, "setup-write")
+	}
+	checkAll := func(label string) {
+		for i := range names {
+			got := gosymReadAll(fh[i], 8)
+			gosym_Assert(len(got) == len(model[i]) && gosym_BytesEq(got, model[i]), label)
+		}
+	}
+	nflush := gosym_Param("flushes", 2)
+	for round := 0; round < nflush; round++ {
+		tag := string(rune('0' + round))
+		gosym_Assert(fs.Flush("", gosym_Fork("short-blocks"+tag)) == nil, "async-flush-returns-without-error")
+		if len(kc.pending) > 0 {
+			gosym_Reach("flush-write-in-flight")
+		}
+		checkAll("reader-sees-foreground-content-before-flush-completes")
+		// one foreground operation while the block writes are in flight
+		i := gosym_Choice("file"+tag, 2)
+		if gosym_Fork("write" + tag) {
+			off := gosym_Choice("off"+tag, 3)
+			ln := 1 + gosym_Choice("len"+tag, 2)
+			data := gosym_Bytes("data"+tag, ln, "any")
+			fh[i].Seek(int64(off), io.SeekStart)
+			n, werr := fh[i].Write(data)
+			gosym_Assert(werr == nil && n == ln, "write-succeeds-while-flushes-are-pending")
+			for len(model[i]) < off+ln {
+				model[i] = append(model[i], 0)
+			}
+			model[i] = append([]byte(nil), model[i]...)
+			copy(model[i][off:], data)
+		} else {
+			n := gosym_Choice("trunc"+tag, 5)
+			gosym_Assert(fh[i].Truncate(int64(n)) == nil, "truncate")
+			for len(model[i]) < n {
+				model[i] = append(model[i], 0)
+			}
+			model[i] = model[i][:n]
+		}
+		checkAll("reader-sees-foreground-content-before-flush-completes")
+		if round == nflush-1 || gosym_Fork("release-between-flushes") {
+			kc.releaseSome("after-op" + tag)
+			checkAll("late-or-failed-background-write-never-changes-content")
+		}
+	}
+	kc.releaseAll()
+	kc.hold = false
+	checkAll("final-content-is-operations-applied-in-order")
+	mt, merr := fs.MarshalManifest(".")
+	gosym_Assert(merr == nil, "save-succeeds-when-keep-is-healthy")
+	if merr == nil {
+		fs2, lerr := (&Collection{ManifestText: mt}).FileSystem(nil, kc)
+		gosym_Assert(lerr == nil, "saved-manifest-loads")
+		if lerr == nil {
+			for i, nm := range names {
+				if len(model[i]) == 0 {
+					_, serr := fs2.Stat(nm)
+					gosym_Assert(serr == nil, "empty-file-survives-save")
+					continue
+				}
+				f2, oerr := fs2.Open(nm)
+				gosym_Assert(oerr == nil, "saved-file-opens")
+				if oerr == nil {
+					got2 := gosymReadAll(f2, 8)
+					gosym_Assert(len(got2) == len(model[i]) && gosym_BytesEq(got2, model[i]), "saved-manifest-holds-final-content")
+				}
+			}
+		}
+	}
+	gosym_Reach("done")
+}
